@@ -18,14 +18,15 @@ NAME = "files"
 PROPERTIES = ["C20"]
 
 
-def gen_plan_enum(rng: Rng, tier: str) -> Dict[str, Any]:
+def gen_plan_enum(rng: Rng, tier: str, base: int = 0) -> Dict[str, Any]:
     """Base plan of a fault-point enumeration over the write calls of one writer operation."""
     world = worldgen.gen_world(rng.fork("world"), "files", {"always_args": True, "causal": True})
     files = world["files"]
     ranks = [f["rank"] for f in files]
     inc = rng.chance(0.5)
     ops: List[Dict[str, Any]] = [{"op": "load", "mode": "ta", "via": "dir", "include_last": inc}]
-    kind = rng.weighted([("counters", 4), ("overlay", 3), ("write", 2), ("update_rank", 3)])
+    # the writers take turns over the base plans of a batch (the quick tier has three of them)
+    kind = ["update_rank", "counters", "overlay", "write"][base % 4]
     if kind == "counters":
         ops.append({"op": "gen_counters", "series": rng.choice([None, "queue", "both"]), "ranks": [ranks[0]],
                     "suffix": rng.choice([None, "_c2"])})
@@ -47,6 +48,22 @@ def gen_plan_enum(rng: Rng, tier: str) -> Dict[str, Any]:
     sess_a = {"zygote": rng.below(len(driver.HASH_SEEDS)), "env": loader.gen_env(rng.fork("ea"), len(files), False),
               "pre": [], "ops": ops}
     sessions = [sess_a]
+    if kind in ("update_rank", "write") or rng.chance(0.6):
+        # recovery: a new interpreter does the work again - for the copying writers with ANOTHER source trace
+        # into the same destination, so whatever the interrupted attempt left behind meets different content
+        rr = rng.fork("redo")
+        redo: List[Dict[str, Any]] = [dict(ops[0])]
+        for o in ops[1:-1]:
+            o2 = json.loads(json.dumps(o))
+            if o2["op"] == "write_trace" and len(files) > 1:
+                others = [f for f in files if f["name"] != o2["src"]]
+                o2["src"] = rr.choice(others)["name"]
+            if o2["op"] == "update_rank":
+                o2["rank"] = rr.choice([2, 5, 11, 12, 64])
+            redo.append(o2)
+        redo.append({"op": "disk", "docs": False})
+        sessions.append({"zygote": rr.below(len(driver.HASH_SEEDS)), "env": loader.gen_env(rr, len(files), False),
+                         "pre": [], "ops": redo})
     for k in range(2):
         r = rng.fork(f"b{k}")
         sessions.append({"zygote": r.below(len(driver.HASH_SEEDS)), "env": loader.gen_env(r, len(files) * 2, False), "pre": [],
@@ -57,9 +74,9 @@ def gen_plan_enum(rng: Rng, tier: str) -> Dict[str, Any]:
             "enumerate": {"target": target, "kinds": ["write_enospc", "kill"]}}
 
 
-def gen_plan(rng: Rng, tier: str, faulty: bool = False, enum: bool = False) -> Dict[str, Any]:
+def gen_plan(rng: Rng, tier: str, faulty: bool = False, enum: bool = False, base: int = 0) -> Dict[str, Any]:
     if enum:
-        return gen_plan_enum(rng, tier)
+        return gen_plan_enum(rng, tier, base)
     world = worldgen.gen_world(rng.fork("world"), "files", {"always_args": True, "causal": True})
     files = world["files"]
     ranks = [f["rank"] for f in files]
@@ -116,10 +133,18 @@ def gen_plan(rng: Rng, tier: str, faulty: bool = False, enum: bool = False) -> D
                                   "memprof": False}]})
     if faulty:
         fr = rng.fork("faults")
-        kind = fr.weighted([("write_enospc", 3), ("write_eio", 2), ("kill", 4)])
+        kind = fr.weighted([("write_enospc", 6), ("write_eio", 4), ("kill", 8), ("fsop_fail", 1), ("open_eacces", 1)])
         target = fr.choice(["_with_counters", "_c2", "overlaid_critical_path_", "out/"])
-        sess_a["env"].setdefault("faults", []).append({"kind": kind, "path": target, "contains": True,
-                                                       "call": fr.choice([0, 0, 1, 2, 3, 7, 20])})
+        if kind == "fsop_fail":
+            # creating the output directory fails
+            sess_a["env"].setdefault("faults", []).append({"kind": kind, "path": fr.choice(["out", "overlay"]), "contains": True,
+                                                           "errno": fr.choice(["EPERM", "ENOSPC", "EACCES"])})
+        elif kind == "open_eacces":
+            sess_a["env"].setdefault("faults", []).append({"kind": kind, "path": target, "contains": True, "cls": "w",
+                                                           "errno": fr.choice(["EACCES", "EMFILE", "EROFS"])})
+        else:
+            sess_a["env"].setdefault("faults", []).append({"kind": kind, "path": target, "contains": True,
+                                                           "call": fr.choice([0, 0, 1, 2, 3, 7, 20])})
     return {"format": 1, "profile": NAME, "world": world, "sessions": sessions}
 
 
@@ -148,7 +173,7 @@ def check_counters_file(res: Result, name: str, info: Dict[str, Any], ws: loader
     # which source does it belong to?  <src stem><suffix>.json[.gz]
     src = None
     for cand, f in ws.files.items():
-        if f.get("tool_written"):
+        if f.get("tool_written") or ".json" not in cand:
             continue
         stem = cand[: cand.index(".json")]
         if name.startswith(stem) and name[len(stem):] != cand[len(stem):] and name.endswith(cand[cand.index(".json"):]):
